@@ -75,7 +75,7 @@ def run_case(ctx, case):
         dot = sum(a * b for a, b in zip(d1, diff))
         n1, n2 = math.sqrt(sum(a * a for a in d1)), math.sqrt(sum(b * b for b in diff))
         # Newton stops when |step| < 1e-6, i.e. |<C',C-P>| < 1e-6 * |<C'',C-P> + <C',C'>|: allow that much, generously scaled
-        if abs(dot) > 1e-4 * (n1 * n2 + n1 * n1) + 1e-9:
+        if abs(dot) > 1e-4 * (n1 * n2 + n1 * n1) + 1e-6:
             rec.violation("returned interior parameter is not a stationary point of the distance", case, parameter=t, derivative=dot)
             return
 
